@@ -37,19 +37,20 @@ Notation abs := RaftLogProofs.abs.
 (* ================================================================== *)
 
 (* the parts of the log that determine the logical log *)
-Definition same_su (l l' : raft_log) : Prop := store l' = store l /\ unst l' = unst l.
+Definition same_su (l l' : raft_log) : Prop :=
+  store l' = store l /\ unst l' = unst l /\ applied l' = applied l.
 
 Lemma same_su_refl l : same_su l l.
-Proof. split; reflexivity. Qed.
+Proof. repeat split; reflexivity. Qed.
 
 Lemma same_su_trans a b c : same_su a b -> same_su b c -> same_su a c.
 Proof. unfold same_su. intuition congruence. Qed.
 
 Lemma same_su_abs l l' : same_su l l' -> abs l' = abs l.
-Proof. intros [A B]. apply abs_ext; assumption. Qed.
+Proof. intros (A & B & _). apply abs_ext; assumption. Qed.
 
 Lemma same_su_last l l' : same_su l l' -> last_index l' = last_index l.
-Proof. intros [A B]. unfold last_index. rewrite A, B. reflexivity. Qed.
+Proof. intros (A & B & _). unfold last_index. rewrite A, B. reflexivity. Qed.
 
 (* the window flag is only the conjunct applied <= committed *)
 Lemma RepInv_false_iff l : RepInv false l <-> RepInv true l /\ applied l <= committed l.
@@ -91,7 +92,7 @@ Proof.
   intros H HI. unfold commit_to in H. destruct (tc <=? committed l) eqn:E.
   - inversion H; subst. split; [exact HI|apply same_su_refl].
   - destruct (last_index l <? tc) eqn:E2; [discriminate|]. inversion H; subst. clear H.
-    rewrite (abs_last rw l HI) in E2. split; [|split; reflexivity].
+    rewrite (abs_last rw l HI) in E2. split; [|repeat split].
     apply RepInv_set_committed; auto; [lia|lia|].
     intros Hrw. pose proof (ri_applied rw l HI Hrw). lia.
 Qed.
@@ -108,12 +109,13 @@ Qed.
 
 (* ---- applied_to ---- *)
 Lemma applied_to_pres rw l i l' :
-  applied_to l i = Ok l' -> RepInv rw l -> RepInv rw l' /\ same_su l l'.
+  applied_to l i = Ok l' -> RepInv rw l ->
+  RepInv rw l' /\ store l' = store l /\ unst l' = unst l /\ committed l' = committed l.
 Proof.
   unfold applied_to. intros H HI. destruct (i =? 0).
-  - inversion H; subst. split; [exact HI|apply same_su_refl].
+  - inversion H; subst. auto.
   - destruct ((committed l <? i) || (i <? applied l)) eqn:E; [discriminate|]. inversion H; subst.
-    split; [|split; reflexivity]. apply RepInv_set_applied; [exact HI|]. intros _. lia.
+    split; [|repeat split]. apply RepInv_set_applied; [exact HI|]. intros _. lia.
 Qed.
 
 (* ---- append ---- *)
@@ -185,7 +187,7 @@ Proof.
   unfold maybe_persist in H.
   match type of H with (if ?c then _ else _) = _ => destruct c end;
     [|inversion H; subst; apply same_su_refl].
-  inv_bind H. destruct (term_ok_eq x t); inversion H; subst; [split; reflexivity|apply same_su_refl].
+  inv_bind H. destruct (term_ok_eq x t); inversion H; subst; [repeat split|apply same_su_refl].
 Qed.
 
 Lemma maybe_persist_snap_pres rw l i l' b :
@@ -201,7 +203,7 @@ Proof.
     destruct (N.le_gt_cases (u_offset (unst l)) i) as [Hle3|Hgt3];
       [rewrite (Hc3 Hgt Hle2 Hle3) in H; discriminate|].
     destruct (maybe_persist_snap_ok rw l i HI Hgt Hle2 Hgt3 (Hn Hgt)) as (Hm & Hr & _).
-    rewrite H in Hm. inversion Hm; subst. split; [exact Hr|split; reflexivity].
+    rewrite H in Hm. inversion Hm; subst. split; [exact Hr|repeat split].
 Qed.
 
 (* ---- stabilisation: the storage must already hold what is stabilised ---- *)
@@ -935,14 +937,14 @@ Theorem commit_apply_pres rw r a r' :
   commit_apply r a = Ok r' -> LI rw r -> (is_leader r = true -> room 1 r) -> LI rw r'.
 Proof.
   unfold commit_apply, commit_apply_internal. cbn [negb]. intros H HI Hroom.
-  inv_bind H. destruct (applied_to_pres rw _ _ _ Hx HI) as [A B].
+  inv_bind H. destruct (applied_to_pres rw _ _ _ Hx HI) as (A & B1 & B2 & _).
   match type of H with (if ?c then _ else _) = _ => destruct c eqn:Ec end;
     [|inversion H; subst; exact A].
   inv_bind H. destruct x0 as [r1 ok]. destruct ok; cbn [negb] in H; [|discriminate].
   inversion H; subst. cbn.
   apply andb_prop in Ec. destruct Ec as [_ El]. change (is_leader r = true) in El.
   destruct (append_entry_pres rw _ _ _ _ Hx0 A) as (H1 & _); [|exact H1].
-  unfold room. cbn. rewrite (same_su_last _ _ B). exact (Hroom El).
+  unfold room. cbn. rewrite (last_index_eq _ _ B2 B1). exact (Hroom El).
 Qed.
 
 (* the unchecked variant used by Raft::new: the restart window opens *)
@@ -1072,4 +1074,247 @@ Proof.
   split; [exact (proj1 (become_follower_pres true _ _ _ _ Hx1 H4))|].
   split; [intros Ha; exact (proj1 (become_follower_pres false _ _ _ _ Hx1 (H4' Ha)))|].
   rewrite E5. exact Hs4.
+Qed.
+
+(* ================================================================== *)
+(* Part C. M/RawNode.v                                                  *)
+(* ================================================================== *)
+Definition NLI (rw : bool) (n : rawnode) : Prop := LI rw (rn_raft n).
+Definition NLogOK (n : rawnode) : Prop := LogOK (rn_raft n).
+Definition nlog (n : rawnode) : raft_log := r_log (rn_raft n).
+Definition nlast (n : rawnode) : N := last_index (nlog n).
+Definition nroom (k : N) (n : rawnode) : Prop := room k (rn_raft n).
+
+Lemma NLI_same rw n n' : nlog n' = nlog n -> NLI rw n -> NLI rw n'.
+Proof. unfold NLI, LI, nlog. intros ->. exact (fun H => H). Qed.
+
+Theorem rn_step_pres rw n m n' c :
+  rn_step n m = Ok (n', c) -> msg_wf (nlast n) m -> NLI rw n -> NLI rw n'.
+Proof.
+  unfold rn_step, lift2. intros H W HI.
+  destruct (is_local_msg (m_type m)); [inversion H; subst; exact HI|].
+  match type of H with (if ?c then _ else _) = _ => destruct c end; [|inversion H; subst; exact HI].
+  inv_bind H. destruct x as [r1 c1]. inversion H; subst.
+  unfold NLI. cbn. eapply step_pres; eassumption.
+Qed.
+
+Theorem rn_tick_pres rw n n' b : rn_tick n = Ok (n', b) -> nroom 1 n -> NLI rw n -> NLI rw n'.
+Proof.
+  unfold rn_tick. intros H Hr HI. inv_bind H. destruct x as [r1 b1]. inversion H; subst.
+  unfold NLI. cbn. eapply tick_pres; eassumption.
+Qed.
+
+Theorem rn_campaign_pres rw n n' c : rn_campaign n = Ok (n', c) -> nroom 1 n -> NLI rw n -> NLI rw n'.
+Proof.
+  unfold rn_campaign, lift2. intros H Hr HI. inv_bind H. destruct x as [r1 c1]. inversion H; subst.
+  unfold NLI. cbn. eapply step_pres; [exact Hx| |exact HI].
+  unfold msg_wf. cbn. splits; try (intros E; discriminate). intros _. exact Hr.
+Qed.
+
+Theorem rn_propose_pres rw n ctx data n' c :
+  rn_propose n ctx data = Ok (n', c) -> nroom 1 n -> NLI rw n -> NLI rw n'.
+Proof.
+  unfold rn_propose, lift2. intros H Hr HI. inv_bind H. destruct x as [r1 c1]. inversion H; subst.
+  unfold NLI. cbn. eapply step_pres; [exact Hx| |exact HI].
+  unfold msg_wf. cbn. splits; try (intros E; discriminate). intros _. exact Hr.
+Qed.
+
+Theorem rn_propose_conf_change_pres rw n ctx data ty ci n' c :
+  rn_propose_conf_change n ctx data ty ci = Ok (n', c) -> nroom 1 n -> NLI rw n -> NLI rw n'.
+Proof.
+  unfold rn_propose_conf_change, lift2. intros H Hr HI. inv_bind H. destruct x as [r1 c1].
+  inversion H; subst. unfold NLI. cbn. eapply step_pres; [exact Hx| |exact HI].
+  unfold msg_wf. cbn. splits; try (intros E; discriminate). intros _. exact Hr.
+Qed.
+
+Theorem rn_apply_conf_change_pres rw n cc n' o :
+  rn_apply_conf_change n cc = Ok (n', o) -> NLI rw n -> NLI rw n'.
+Proof.
+  unfold rn_apply_conf_change. intros H HI. inv_bind H. destruct x as [r1 o1]. inversion H; subst.
+  unfold NLI. cbn. exact (proj1 (raft_apply_conf_change_pres rw _ _ _ _ Hx HI)).
+Qed.
+
+Theorem rn_ping_log n n' : rn_ping n = Ok n' -> nlog n' = nlog n.
+Proof.
+  unfold rn_ping, lift. intros H. inv_bind H. inversion H; subst. unfold nlog. cbn.
+  eapply ping_log; exact Hx.
+Qed.
+
+Lemma gen_light_ready_log n n' lr : gen_light_ready n = Ok (n', lr) -> nlog n' = nlog n.
+Proof.
+  intros H. destruct (gen_light_ready_spec _ _ _ H) as (oe & k & _ & _ & -> & _). reflexivity.
+Qed.
+
+Theorem rn_ready_log n n' rd : rn_ready n = Ok (n', rd) -> nlog n' = nlog n.
+Proof.
+  intros H. destruct (ready_entries_are_unstable _ _ _ H) as (_ & _ & _ & _ & _ & _ & _ & _ & _ & _ & _ & _ & E & _).
+  exact E.
+Qed.
+
+(* ---- commit_ready: the record being stabilised must be in the storage ---- *)
+Definition commit_pre (n : rawnode) : Prop :=
+  let rr := List.last (rn_records n) rr_default in
+  (rr_snapshot rr <> None -> snap_written (nlog n))
+  /\ (rr_last_entry rr <> None -> ents_written (nlog n)).
+
+Definition same_cpa (l l' : raft_log) : Prop :=
+  committed l' = committed l /\ persisted l' = persisted l /\ applied l' = applied l.
+
+Theorem commit_ready_pres rw n rd n' :
+  commit_ready n rd = Ok n' -> commit_pre n -> NLI rw n ->
+  NLI rw n' /\ abs (nlog n') = abs (nlog n) /\ store (nlog n') = store (nlog n)
+  /\ same_cpa (nlog n) (nlog n') /\ rn_records n' = rn_records n
+  /\ rn_max_number n' = rn_max_number n.
+Proof.
+  unfold commit_ready. fold (commit_prev n rd).
+  destruct (commit_prev_frame n rd) as (F1 & F2 & F3 & _).
+  rewrite F2, F1. fold rr_default. unfold commit_pre, nlog.
+  intros H [P1 P2] HI.
+  destruct (rn_records n) as [|r0 rs] eqn:Er; [discriminate|]. rewrite <- Er in *.
+  set (rr := List.last (rn_records n) rr_default) in *.
+  destruct (negb (rr_number rr =? rd_number rd)); [discriminate|].
+  inv_bind H. inv_bind H. inversion H; subst n'; clear H. unfold NLI, LI. cbn.
+  rewrite F2, F3.
+  assert (H1 : RepInv rw x /\ abs x = abs (r_log (rn_raft n)) /\ store x = store (r_log (rn_raft n))
+               /\ same_cpa (r_log (rn_raft n)) x
+               /\ (rr_last_entry rr <> None -> ents_written x)).
+  { destruct (rr_snapshot rr) as [[si st]|].
+    - destruct (stable_snap_pres rw _ _ _ Hx HI (P1 ltac:(discriminate)))
+        as (A & B & C0 & D & E & F & G1 & G2 & G3).
+      splits; auto; [split; [exact G1|split; [exact G2|exact G3]]|].
+      intros Hne. specialize (P2 Hne). unfold ents_written in *. rewrite C0, E, F. exact P2.
+    - inversion Hx; subst x. splits; auto. unfold same_cpa. auto. }
+  destruct H1 as (A1 & B1 & C1 & (D1 & D2 & D3) & E1).
+  destruct (rr_last_entry rr) as [[ei et]|].
+  - destruct (stable_entries_pres rw _ _ _ _ Hx0 A1 (E1 ltac:(discriminate)))
+      as (A & B & C0 & G1 & G2 & G3).
+    splits; auto; try congruence. split; [congruence|split; congruence].
+  - inversion Hx0; subst x0. splits; auto. split; [exact D1|split; [exact D2|exact D3]].
+Qed.
+
+(* ---- on_persist_ready: an acknowledged snapshot must be in the storage ---- *)
+Definition persist_pre (n : rawnode) (number : N) : Prop :=
+  let si := snd (fold_records (rn_records n) number 0 0 0) in
+  persisted (nlog n) < si -> si < next_of (store (nlog n)).
+
+Theorem rn_on_persist_ready_pres rw n number n' :
+  rn_on_persist_ready n number = Ok n' -> persist_pre n number -> NLI rw n ->
+  NLI rw n' /\ same_su (nlog n) (nlog n').
+Proof.
+  unfold rn_on_persist_ready, persist_pre, nlog. intros H P HI.
+  destruct (fold_records (rn_records n) number 0 0 0) as [[[recs i] t] si]. cbn [snd] in P.
+  inv_bind H. inv_bind H. inversion H; subst n'; clear H. unfold NLI. cbn.
+  assert (H1 : LI rw x /\ same_su (r_log (rn_raft n)) (r_log x)).
+  { destruct (negb (si =? 0)).
+    - eapply on_persist_snap_pres; [exact Hx|exact HI|exact P].
+    - inversion Hx; subst x. split; [exact HI|apply same_su_refl]. }
+  destruct H1 as [A1 S1].
+  destruct (negb (i =? 0)).
+  - destruct (on_persist_entries_pres rw _ _ _ _ Hx0 A1) as [A2 S2].
+    split; [exact A2|eapply same_su_trans; eassumption].
+  - inversion Hx0; subst x0. split; assumption.
+Qed.
+
+(* ---- advance ---- *)
+Definition advance_pre (n : rawnode) : Prop := commit_pre n /\ persist_pre n (rn_max_number n).
+
+Theorem rn_advance_append_pres rw n rd n' lr :
+  rn_advance_append n rd = Ok (n', lr) -> advance_pre n -> NLI rw n ->
+  NLI rw n' /\ abs (nlog n') = abs (nlog n) /\ store (nlog n') = store (nlog n)
+  /\ applied (nlog n') = applied (nlog n).
+Proof.
+  intros H [P1 P2] HI.
+  destruct (rn_advance_append_inv _ _ _ _ H) as (n1 & n2 & n3 & lr3 & H1 & H2 & H3 & _ & _ & _ & _ & Hn' & _).
+  destruct (commit_ready_pres rw _ _ _ H1 P1 HI) as (A1 & B1 & C1 & (D1 & D2 & D3) & E1 & F1).
+  assert (P2' : persist_pre n1 (rn_max_number n1)).
+  { unfold persist_pre in *. rewrite E1, F1, D2, C1. exact P2. }
+  destruct (rn_on_persist_ready_pres rw _ _ _ H2 P2' A1) as (A2 & S2).
+  pose proof (gen_light_ready_log _ _ _ H3) as E3.
+  assert (E4 : nlog n' = nlog n3) by (subst n'; reflexivity).
+  rewrite E4, E3. splits.
+  - eapply NLI_same; [|exact A2]. congruence.
+  - rewrite (same_su_abs _ _ S2). exact B1.
+  - rewrite (proj1 S2). exact C1.
+  - destruct S2 as (_ & _ & S2a). rewrite S2a. exact D3.
+Qed.
+
+Theorem rn_advance_append_async_pres rw n rd n' :
+  rn_advance_append_async n rd = Ok n' -> commit_pre n -> NLI rw n -> NLI rw n'.
+Proof. unfold rn_advance_append_async. intros H P HI. exact (proj1 (commit_ready_pres rw _ _ _ H P HI)). Qed.
+
+Theorem rn_advance_apply_to_pres rw n a n' :
+  rn_advance_apply_to n a = Ok n' -> (is_leader (rn_raft n) = true -> nroom 1 n) -> NLI rw n -> NLI rw n'.
+Proof.
+  unfold rn_advance_apply_to, lift. intros H Hr HI. inv_bind H. inversion H; subst.
+  unfold NLI. cbn. eapply commit_apply_pres; eassumption.
+Qed.
+
+Theorem rn_advance_apply_pres rw n n' :
+  rn_advance_apply n = Ok n' -> (is_leader (rn_raft n) = true -> nroom 1 n) -> NLI rw n -> NLI rw n'.
+Proof. unfold rn_advance_apply. apply rn_advance_apply_to_pres. Qed.
+
+Theorem rn_advance_pres rw n rd n' lr :
+  rn_advance n rd = Ok (n', lr) -> advance_pre n -> nroom 1 n -> NLI rw n -> NLI rw n'.
+Proof.
+  unfold rn_advance. intros H P Hr HI. inv_bind H. destruct x as [n1 lr1]. cbn [fst snd] in H.
+  inv_bind H. inversion H; subst.
+  destruct (rn_advance_append_pres rw _ _ _ _ Hx P HI) as (A1 & B1 & _).
+  eapply rn_advance_apply_to_pres; [exact Hx0| |exact A1].
+  intros _. unfold nroom, room in *.
+  assert (E : last_index (nlog n1) = last_index (nlog n)).
+  { unfold nlog in *. rewrite (abs_last rw _ A1), B1. symmetry. apply (abs_last rw). exact HI. }
+  unfold nlog in E. rewrite E. exact Hr.
+Qed.
+
+Lemma rn_step_plain_pres rw (n : rawnode) m x :
+  step (rn_raft n) m = Ok x ->
+  elect_type (m_type m) = false -> m_type m <> MsgPropose -> m_type m <> MsgAppend ->
+  m_type m <> MsgSnapshot -> NLI rw n -> NLI rw (n <| rn_raft := fst x |>).
+Proof.
+  intros H A B C0 D HI. destruct x as [r1 c1]. unfold NLI. cbn.
+  eapply step_pres; [exact H|apply msg_wf_plain; assumption|exact HI].
+Qed.
+
+Theorem rn_report_unreachable_pres rw n id n' :
+  rn_report_unreachable n id = Ok n' -> NLI rw n -> NLI rw n'.
+Proof.
+  unfold rn_report_unreachable. intros H HI. inv_bind H. inversion H; subst.
+  eapply rn_step_plain_pres; [exact Hx| | | | |exact HI]; cbn; (reflexivity || discriminate).
+Qed.
+
+Theorem rn_report_snapshot_pres rw n id f n' :
+  rn_report_snapshot n id f = Ok n' -> NLI rw n -> NLI rw n'.
+Proof.
+  unfold rn_report_snapshot. intros H HI. inv_bind H. inversion H; subst.
+  eapply rn_step_plain_pres; [exact Hx| | | | |exact HI]; cbn; (reflexivity || discriminate).
+Qed.
+
+Theorem rn_transfer_leader_pres rw n t n' :
+  rn_transfer_leader n t = Ok n' -> NLI rw n -> NLI rw n'.
+Proof.
+  unfold rn_transfer_leader. intros H HI. inv_bind H. inversion H; subst.
+  eapply rn_step_plain_pres; [exact Hx| | | | |exact HI]; cbn; (reflexivity || discriminate).
+Qed.
+
+Theorem rn_read_index_pres rw n ctx n' :
+  rn_read_index n ctx = Ok n' -> NLI rw n -> NLI rw n'.
+Proof.
+  unfold rn_read_index. intros H HI. inv_bind H. inversion H; subst.
+  eapply rn_step_plain_pres; [exact Hx| | | | |exact HI]; cbn; (reflexivity || discriminate).
+Qed.
+
+Theorem rn_request_snapshot_log n n' c : rn_request_snapshot n = Ok (n', c) -> nlog n' = nlog n.
+Proof.
+  unfold rn_request_snapshot, lift2. intros H. inv_bind H. destruct x as [r1 c1]. inversion H; subst.
+  unfold nlog. cbn. eapply request_snapshot_log; exact Hx.
+Qed.
+
+(* ---- RawNode::new ---- *)
+Theorem rn_new_pres c st sa dr n :
+  rn_new c st sa dr = Ok (inr n) -> SInv st -> trig_log st = false ->
+  NLI true n /\ (c_applied c = 0 -> NLI false n) /\ store (nlog n) = st.
+Proof.
+  unfold rn_new. intros H Hs Hq. destruct (c_id c =? 0); [discriminate|].
+  inv_bind H. destruct x as [e|r]; inversion H; subst. unfold NLI, nlog. cbn.
+  eapply raft_new_pres; eassumption.
 Qed.
